@@ -172,8 +172,25 @@ def run(repo: Repo, rep: Report) -> None:
     for c in dels:
         cn = g.node_of(c, col)
         ok = g.must_pass_before(cn, relinks) or g.must_pass_after(cn, relinks)
+        only_member = False
+        if not ok:
+            # deleting the only member needs no relink: the deletion sits in a branch taken when the deleted cell's rdf:rest is rdf:nil / absent
+            subj = norm(c.args[0].elts[0])
+            rest_names = {norm(a.targets[0]) for a in own_nodes(f) if isinstance(a, ast.Assign) and isinstance(a.value, ast.Call) and norm(a.value.func).endswith(".value")
+                          and len(a.value.args) == 2 and norm(a.value.args[0]) == subj and norm(a.value.args[1]).endswith("RDF.rest")}
+            child = c
+            for p_ in col.parents(c):
+                if isinstance(p_, ast.If) and any(child is x or any(child is y for y in ast.walk(x)) for x in p_.body):
+                    for t in ast.walk(p_.test):
+                        if isinstance(t, ast.Compare) and norm(t.left) in rest_names and (norm(t.comparators[0]).endswith("RDF.nil") or norm(t.comparators[0]) == "None") \
+                                and isinstance(t.ops[0], (ast.Eq, ast.Is)):
+                            only_member = True
+                if p_ is f:
+                    break
+                child = p_
+            ok = only_member
         rep.ob("C19.d-chain-upkeep", col, "Collection.__delitem__", c, ok,
-               "cell deletion paired with a relink of rdf:rest on the same path" if ok else
+               ("the deleted cell has no successor (only member): nothing to relink" if only_member else "cell deletion paired with a relink of rdf:rest on the same path") if ok else
                "a path deletes a cell without relinking its predecessor: the chain is broken", node=c)
     if not dels:
         raise AnalysisError("Collection.__delitem__ deletes no cell")
@@ -229,3 +246,96 @@ def run(repo: Repo, rep: Report) -> None:
                 ok = not c.args and not c.keywords
                 rep.ob("C19.f-mutating-loops-and-fresh-cells", col, "Collection." + mname, c, ok,
                        "fresh cell" if ok else "a new cell is named from data (%s): after deletions the name can coincide with a cell still in the chain" % norm(c)[:60], node=c)
+
+
+_run_base = run
+
+
+def run(repo: Repo, rep: Report) -> None:  # noqa: F811
+    _run_base(repo, rep)
+    col = repo.mod("rdflib.collection")
+    m = col.methods("Collection")
+    gc = m["_get_container"]
+    idx = gc.args.args[1].arg
+
+    # ------------------------------------------------------------------ (g)
+    rep.rule("C19.g-nil-is-not-a-cell",
+             "Collection._get_container, the only source of the cell that __getitem__/__setitem__/__delitem__ read and write, never returns rdf:nil: the walk stops being a cell at "
+             "rdf:nil (returns None, which the callers turn into IndexError). Returning rdf:nil for index == len makes `c[len(c)] = x` assert rdf:first on rdf:nil itself - the shared "
+             "terminator of every list in the graph", floor=2)
+    cur = None
+    for n in own_nodes(gc):
+        if isinstance(n, ast.Assign) and isinstance(n.targets[0], ast.Name) and "RDF.rest" in norm(n.value):
+            pass
+    rets = [r for r in own_nodes(gc) if isinstance(r, ast.Return) and r.value is not None and not (isinstance(r.value, ast.Constant) and r.value.value is None)]
+    if not rets:
+        raise AnalysisError("_get_container: no value return")
+    for r in rets:
+        cur = norm(r.value)
+        guard = [n for n in own_nodes(gc) if isinstance(n, ast.If) and n.lineno < r.lineno and any(isinstance(c, ast.Compare) and {norm(c.left), norm(c.comparators[0])} == {cur, "RDF.nil"} for c in ast.walk(n.test))
+                 and any(isinstance(x, ast.Return) and (x.value is None or (isinstance(x.value, ast.Constant) and x.value.value is None)) for x in n.body)]
+        loop_excl = [n for n in own_nodes(gc) if isinstance(n, ast.While) and "RDF.nil" in norm(n.test) and cur in norm(n.test)]
+        ok = bool(guard)
+        rep.ob("C19.g-nil-is-not-a-cell", col, "Collection._get_container", "return %s" % cur, ok,
+               "rdf:nil is mapped to None before the return" if ok else
+               "for index == len(list) the walk ends on rdf:nil and returns it as if it were a cell: __getitem__ raises KeyError instead of IndexError, and __setitem__ writes (rdf:nil rdf:first x) into the graph", node=r)
+    for name in ("__getitem__", "__setitem__"):
+        f = m[name]
+        raises = any(isinstance(n, ast.Raise) and "IndexError" in norm(n) for n in own_nodes(f))
+        rep.ob("C19.g-nil-is-not-a-cell", col, "Collection." + name, "missing cell -> IndexError", raises, "" if raises else "no IndexError raised for a missing cell", node=f)
+    # __setitem__: when the addressed cell does not exist, nothing is written (a list raises IndexError for every index outside range(len))
+    f = m["__setitem__"]
+    top = [n for n in f.body if isinstance(n, ast.If)]
+    if top:
+        def leaves(orelse):
+            for st in orelse:
+                if isinstance(st, ast.If):
+                    yield from ((b, st) for b in st.body)
+                    yield from leaves(st.orelse)
+                else:
+                    yield st, None
+        for st, guard in leaves(top[0].orelse):
+            if isinstance(st, ast.Raise):
+                continue
+            writes = any(isinstance(c, ast.Call) and isinstance(c.func, ast.Attribute) and c.func.attr in ("append", "add", "set", "__iadd__") for c in ast.walk(st)) or isinstance(st, ast.AugAssign)
+            if writes:
+                rep.ob("C19.g-nil-is-not-a-cell", col, "Collection.__setitem__", st, False,
+                       "on the path where the addressed cell does not exist (%s) the list is modified instead of IndexError being raised" % (norm(guard.test) if guard is not None else "else"), node=st)
+
+    # ------------------------------------------------------------------ (h)
+    rep.rule("C19.h-negative-index-counts-from-the-end",
+             "an index below zero is normalised by adding the length (in _get_container, and in __delitem__ before it does arithmetic on the key) - a walk `while i < index` "
+             "with a negative index does not move and silently addresses the first cell: c[-1] reads, writes and deletes element 0", floor=2)
+    for name, f, var in (("_get_container", gc, idx), ("__delitem__", m["__delitem__"], m["__delitem__"].args.args[1].arg)):
+        norm_neg = [n for n in own_nodes(f) if isinstance(n, ast.If) and any(isinstance(c, ast.Compare) and norm(c.left) == var and isinstance(c.ops[0], ast.Lt) and norm(c.comparators[0]) == "0" for c in ast.walk(n.test))
+                    and any(isinstance(x, ast.AugAssign) and norm(x.target) == var and "len(" in norm(x.value) for x in ast.walk(n))]
+        rep.ob("C19.h-negative-index-counts-from-the-end", col, "Collection." + name, "if %s < 0: %s += len(self)" % (var, var), bool(norm_neg),
+               "" if norm_neg else "a negative %s is used as it is: the walk/arithmetic treats it as 0 (or as `before the head`)" % var, node=f)
+
+    # ------------------------------------------------------------------ (i)
+    rep.rule("C19.i-head-deletion-does-not-relink-a-predecessor",
+             "__delitem__ asks for the predecessor cell (_get_container(key - 1)) only under a test that key > 0: for the head there is no predecessor - with the head's own cell "
+             "(or, once negative indices count from the end, the LAST cell) standing in for it, the relink closes the chain into a cycle or leaves a cell without rdf:first", floor=1)
+    di = m["__delitem__"]
+    kv = di.args.args[1].arg
+    n_sites = 0
+    for c in own_nodes(di):
+        if isinstance(c, ast.Call) and norm(c.func) == "self._get_container" and c.args and norm(c.args[0]).replace(" ", "") == "%s-1" % kv:
+            n_sites += 1
+            guarded = False
+            child = c
+            for p_ in col.parents(c):
+                if isinstance(p_, ast.If):
+                    in_body = any(child is x or any(child is y for y in ast.walk(x)) for x in p_.body)
+                    t = norm(p_.test).replace(" ", "")
+                    if in_body and ("%s>0" % kv in t or "%s>=1" % kv in t or "%s!=0" % kv in t):
+                        guarded = True
+                    if not in_body and ("%s==0" % kv == t or "%s<1" % kv == t):
+                        guarded = True
+                if p_ is di:
+                    break
+                child = p_
+            rep.ob("C19.i-head-deletion-does-not-relink-a-predecessor", col, "Collection.__delitem__", c, guarded,
+                   "only for key > 0" if guarded else "_get_container(%s - 1) is evaluated for key == 0 as well: the `predecessor` of the head is the head itself (or the last cell)" % kv, node=c)
+    if n_sites == 0:
+        rep.ob("C19.i-head-deletion-does-not-relink-a-predecessor", col, "Collection.__delitem__", "no predecessor lookup by index arithmetic", True, "", node=di)
